@@ -34,17 +34,17 @@ GStep == /\ ~done /\ Len(hist) < MaxLen
          /\ UNCHANGED <<init, done>>
 
 \* most requests are market orders on listed instruments (the arms with a ledger effect); the
-\* rest is spread over everything a client can send
-\* (the parameter only keeps TLC from caching the draw as a constant)
-RandReq(k) == LET c == RandomElement(1..(10 + 0 * k)) IN
-           IF c <= 6 THEN RandomElement({r \in OpenReqs : Market(r) /\ Listed(r)})
-           ELSE IF c = 7 THEN RandomElement(OpenReqs)
-           ELSE IF c = 8 THEN RandomElement(TradeReqs)
-           ELSE IF c = 9 THEN RandomElement(SnapReqs)
-           ELSE RandomElement(BalReqs)
+\* rest is spread over everything a client can send.  Every draw is bound through a singleton
+\* set (a RandomElement inside a LET is re-drawn at every reference).
+ReqClass(c) == IF c <= 6 THEN {r \in OpenReqs : Market(r) /\ Listed(r)}
+               ELSE IF c = 7 THEN OpenReqs
+               ELSE IF c = 8 THEN TradeReqs
+               ELSE IF c = 9 THEN SnapReqs
+               ELSE BalReqs
 
 GStepR == /\ ~done /\ Len(hist) < MaxLen
-          /\ \E r \in {RandReq(Len(hist))} : \E id \in FreshIds : \E tt \in ClockChoices(r) : Serve(r, id, tt)
+          /\ \E c \in {RandomElement(1..10)} : \E r \in {RandomElement(ReqClass(c))} :
+                \E id \in FreshIds : \E tt \in ClockChoices(r) : Serve(r, id, tt)
           /\ hist' = Append(hist, last')
           /\ UNCHANGED <<init, done>>
 
